@@ -2,7 +2,8 @@
    Each is closed by `exact <lemma>` and followed by Print Assumptions (audited by ./check on every run). *)
 From V.lib Require Import Base.
 From V.c01 Require Import C01Codec C01Model C01LeafProofs C01Leaf2Proofs C01Leaf3Proofs C01Leaf4Proofs C01Leaf5Proofs C01TableProofs C01TreeProofs C01WhyProofs C01Witness C01Witness3
-  C01RealFiles C01RealWitness C01SizeProofs C01LocalProofs C01StableProofs C01FixProofs C01Witness4 C01EsdsProofs C01SgpdProofs C01Witness5.
+  C01RealFiles C01RealWitness C01SizeProofs C01LocalProofs C01StableProofs C01FixProofs C01Witness4 C01EsdsProofs C01SgpdProofs C01Witness5
+  C01FileModel C01FileProofs C01FileExamples C01FileWitness.
 
 (* a compact header written by EncodeHeaderSW is read back by DecodeHeaderSR *)
 Theorem C01_header_rt : forall name sz r, lenN name = 4 -> 8 <= sz < 4294967296 ->
@@ -319,3 +320,57 @@ Example C01_real_media_segment :
   forallb exact_box (seq_of rf_media_seg) = true /\ bytes_ok rf_media_seg = true /\
   encode_seq false (seq_of rf_media_seg) = Ok rf_media_seg.
 Proof. exact real_media_ok. Qed.
+
+(* ---------------------------------------------------------------- DecodeFileSR with its File-level acceptance rules *)
+(* decode_file_sr (C01FileModel) is the loop of DecodeFileSR: DecodeBoxSR per top-level box AND the rules that are not
+   box-local (moov needs the first-trak/mdia/minf/stbl/stts chain; in a fragmented file an mdat must follow a moof, in a
+   progressive file only one mdat may have a payload; a traf with an unparsed senc and a moov needs a tfhd; a cut-short mdat
+   ends the loop).  The loop is exactly the box loop filtered by the rules as long as no mdat is cut short: *)
+Theorem C01_file_rules_sound : forall bs ts, decode_file_sr bs = FOk ts -> no_trunc ts = true ->
+  decode_file bs = Ok ts /\ file_rules fs0 (map erase_rsv ts) = true.
+Proof. exact (fun bs ts => loop_sound (S (length bs)) fs0 bs ts). Qed.
+Print Assumptions C01_file_rules_sound.
+Theorem C01_file_rules_complete : forall bs ts, decode_file bs = Ok ts -> file_rules fs0 (map erase_rsv ts) = true ->
+  no_trunc ts = true -> decode_file_sr bs = FOk ts.
+Proof. exact (fun bs ts => loop_complete (S (length bs)) fs0 bs ts). Qed.
+Print Assumptions C01_file_rules_complete.
+
+(* C01_file_accepted: for EVERY byte string that DecodeFileSR accepts (FOk: box-local AND File-level rules; files that reach
+   TrafBox.ParseReadSenc have the separate outcome FSencParse and are outside, see C02/C04) whose top-level trees are exact:
+   File.Encode (Box.Encode per child: progressive files, and fragmented files in EncModeBoxTree) and File.EncodeSW (one writer of
+   File.Size() bytes) succeed with the same bytes enc of the input's length; enc is accepted AGAIN by DecodeFileSR with the
+   same trees up to captured reserved bytes and the same IsFragmented(); encoding those gives enc again on both paths.
+   Accepted files outside the hypothesis: not exact (the reasons of why_box, per box) -- at the File level that adds
+   exactly the cut-short mdat (C01_file_truncated_mdat_refuted). *)
+Theorem C01_file_accepted : forall bs ts, bytes_ok bs = true -> decode_file_sr bs = FOk ts -> forallb exact_box ts = true ->
+  exists enc, file_encode_w ts = Ok enc /\ file_encode_sw ts = Ok enc /\ encode_seq false ts = Ok enc /\ lenN enc = lenN bs /\
+    decode_file_sr enc = FOk (map norm_box ts) /\ (file_frag (map norm_box ts) = file_frag ts) /\
+    file_encode_w (map norm_box ts) = Ok enc /\ file_encode_sw (map norm_box ts) = Ok enc.
+Proof. exact file_accepted_fixpoint. Qed.
+Print Assumptions C01_file_accepted.
+
+(* the hypotheses are satisfiable, in both configurations of the quantifier: PROGRESSIVE files with the mdat BEFORE the moov and
+   with the moov before the mdat (File.Encode does not move boxes nor fix up offsets), empty mdats around the one with a
+   payload, and a FRAGMENTED file (box-tree mode) *)
+Example C01_ex_progressive_mdat_first : file_ok fx_prog_mdat_first [n_ftyp; n_mdat; n_moov] false.
+Proof. exact ex_prog_mdat_first_ok. Qed.
+Example C01_ex_progressive_moov_first : file_ok fx_prog_moov_first [n_ftyp; n_moov; n_free; n_mdat] false.
+Proof. exact ex_prog_moov_first_ok. Qed.
+Example C01_ex_progressive_empty_mdats : file_ok fx_prog_empty_mdats [n_ftyp; n_mdat; n_mdat; n_mdat; n_moov] false.
+Proof. exact ex_prog_empty_mdats_ok. Qed.
+Example C01_ex_fragmented_file : file_ok fx_frag [n_ftyp; n_moov; n_styp; n_moof; n_mdat; n_moof; n_mdat] true.
+Proof. exact ex_frag_ok. Qed.
+(* the rules do refuse files whose boxes are all accepted (and exact) one by one *)
+Example C01_ex_file_rules_refuse : rule_refuses fx_two_mdats /\ rule_refuses fx_frag_mdat_first /\ rule_refuses fx_nochain /\
+  decode_file_sr fx_trailing = FErr /\ decode_file_sr fx_size0 = FErr.
+Proof. exact (conj ex_two_mdats_refused (conj ex_frag_mdat_first_refused (conj ex_nochain_refused ex_trailing_refused))). Qed.
+
+(* an ACCEPTED file that is NOT reproduced: the last mdat announces 100 bytes, 4 are there; DecodeMdatSR keeps an empty payload
+   and the loop ends; File.Encode writes an 8-byte mdat (known finding leaf-decoders/header-size-ignored, replayed on the
+   real code by the whole-file correspondence and search) *)
+Theorem C01_file_truncated_mdat_refuted :
+  decode_file_sr fx_trunc_mdat = FOk (fseq_of fx_trunc_mdat) /\ map box_name (fseq_of fx_trunc_mdat) = [n_ftyp; n_moov; n_mdat] /\
+  forallb exact_box (fseq_of fx_trunc_mdat) = false /\ file_encode_w (fseq_of fx_trunc_mdat) = Ok (fenc_of fx_trunc_mdat) /\
+  lenN fx_trunc_mdat = 504 /\ lenN (fenc_of fx_trunc_mdat) = 500 /\ firstn 492 (fenc_of fx_trunc_mdat) = firstn 492 fx_trunc_mdat.
+Proof. exact file_trunc_mdat_refuted. Qed.
+Print Assumptions C01_file_truncated_mdat_refuted.
